@@ -10,6 +10,7 @@
 -/
 import Props.Tables
 import Proofs.ApiGlue
+import Proofs.Printer
 namespace Jmes.Props
 open Jmes Jmes.Parser
 
@@ -40,5 +41,57 @@ theorem C03_equal_parse_equal_result (e1 e2 : Bytes) (ast : Node N)
     (h1 : (Api.compile Model.cfg e1 : Res (Node N)) = .ok ast) (h2 : (Api.compile Model.cfg e2 : Res (Node N)) = .ok ast)
     (doc : Val N) : Api.search Model.cfg e1 doc = Api.search Model.cfg e2 doc := by
   simp only [Api.search, h1, h2]
+
+/-! ### (3) The precedence rules themselves: the parser inverts the precedence-aware printer
+
+`Spec.PE` is the abstract syntax of the projection-free fragment (identifiers,
+literals, `@`, index, sub-expression, `!`, the binary operators `|`, `||`, `&&`
+and the six comparators, function calls with `&` arguments, multi-select lists
+and hashes, nested without bound).  `Spec.ppE false e` writes `e` with
+parentheses ONLY where the JMESPath precedence rules require them — a left
+operand of lower level, a right operand of lower OR EQUAL level (left
+associativity), with levels pipe < or < and < comparators < dot < not < index <
+call — and `Spec.ppE true e` parenthesises every operand.  The theorem says the
+parser of /repo (its regenerated table) maps both spellings to the AST `e`
+denotes: unparenthesised expressions group exactly as the rules dictate. -/
+
+open Jmes.Spec in
+theorem C03_printer_round_trip (e : PE N) (hw : Parser.wf e) (full : Bool) :
+    parseTokens Generated.table (ppE full e ++ [eofTok 0]) = .ok (node e) := by
+  rw [C03_order_facts_determine_the_parser Generated.table generated_table_ok]
+  exact round_trip_spec e hw full
+
+/-- Redundant parentheses never change the parse (hence, by
+    `C03_equal_parse_equal_result`, never the meaning). -/
+theorem C03_redundant_parentheses (e : Spec.PE N) (hw : Parser.wf e) :
+    parseTokens (N := N) Generated.table (Spec.ppE true e ++ [eofTok 0]) =
+      parseTokens Generated.table (Spec.ppE false e ++ [eofTok 0]) := by
+  rw [C03_printer_round_trip e hw true, C03_printer_round_trip e hw false]
+
+section Examples
+open Jmes.Spec
+private def a : PE N := .ident (b "a")
+private def b' : PE N := .ident (b "b")
+private def c : PE N := .ident (b "c")
+private def t (ty : TokType) : Token := tk ty
+private def i (s : String) : Token := tk .uident (b s)
+
+-- what the printer writes (these are evaluations of `ppE`, shown so that the
+-- theorem above can be read concretely; they are not the unbounded claim)
+/-- `a || b || c` is `(a || b) || c` … -/
+example : ppE false (.bin .or (.bin .or (a (N := N)) b') c) = [i "a", t .or, i "b", t .or, i "c"] := rfl
+/-- … and `a || (b || c)` needs its parentheses. -/
+example : ppE false (.bin .or (a (N := N)) (.bin .or b' c)) = [i "a", t .or, t .lparen, i "b", t .or, i "c", t .rparen] := rfl
+/-- `a || b && c` is `a || (b && c)`; `(a || b) && c` needs its parentheses. -/
+example : ppE false (.bin .or (a (N := N)) (.bin .and b' c)) = [i "a", t .or, i "b", t .and, i "c"] := rfl
+example : ppE false (.bin .and (.bin .or (a (N := N)) b') c) = [t .lparen, i "a", t .or, i "b", t .rparen, t .and, i "c"] := rfl
+/-- `!a == b` is `(!a) == b`; `a.b | c` is `(a.b) | c`; `!(a.b)` needs its parentheses (`!a.b` is `(!a).b`: not binds tighter than dot). -/
+example : ppE false (.bin (.cmp .eq) (.not (a (N := N))) b') = [t .not, i "a", t .eq, i "b"] := rfl
+example : ppE false (.bin .pipe (.sub (a (N := N)) b') c) = [i "a", t .dot, i "b", t .pipe, i "c"] := rfl
+example : ppE false (.not (.sub (a (N := N)) b')) = [t .not, t .lparen, i "a", t .dot, i "b", t .rparen] := rfl
+/-- the hypotheses of the theorem are satisfiable: -/
+example : Parser.wf (.bin .or (.bin .or (a (N := N)) b') (.sub c (.call (b "f") [(true, a), (false, .list b' [c])]))) := by
+  simp [Parser.wf, Parser.wfArgs, Parser.wfList, dotOK, dotHead, a, b', c]
+end Examples
 
 end Jmes.Props
